@@ -3,7 +3,7 @@ from fractions import Fraction
 
 from .. import bootstrap  # noqa: F401
 from ..core import digest_of
-from ..grids import gen_structured, make_grid, MGrid
+from ..grids import gen_structured, make_grid, MGrid, relayout
 from ..model import convert
 from ..world import dt
 
@@ -48,6 +48,10 @@ def generate(tape, tier="quick"):
     n_cons = tape.weighted([(1, 3), (2, 2)])
     cons = [{"units": tape.choice([None] + group), "grid": tape.choice(["same", "unset"]),
              "scale": tape.chance(1, 5) and group[0] != "K"} for _ in range(n_cons)]
+    for cc in cons:
+        # the same geometry in another layout: the link re-arranges every publication (values and mask)
+        if gridded and tape.chance(1, 3):
+            cc["grid"], cc["layout"] = "relayout", relayout(tape, g)
     events = []
     t = 0
     pubs = []
@@ -117,9 +121,14 @@ def execute(sc):
     # a fixed mask in the metadata: everything published on this output carries exactly that mask
     out = Output(name="src", info=Info(time=dt(0), grid=G, units=su, mask=maskarr if fixed else Mask[sc["mask"]]))
     inputs = []
+    cms = []
     for ci, c in enumerate(sc["consumers"]):
-        inp = Input(name=f"c{ci}", info=Info(time=dt(0), grid=(make_grid(g) if g else NoGrid(dim=ngdim)) if c["grid"] == "same" else None,
-                                             units=c["units"], mask=Mask.FLEX))
+        if c["grid"] == "relayout":
+            cgrid, cm_ = make_grid(c["layout"]), MGrid(c["layout"])
+        else:
+            cgrid, cm_ = ((make_grid(g) if g else NoGrid(dim=ngdim)) if c["grid"] == "same" else None), M
+        cms.append(cm_)
+        inp = Input(name=f"c{ci}", info=Info(time=dt(0), grid=cgrid, units=c["units"], mask=Mask.FLEX))
         if c["scale"]:
             out >> Scale(2.0) >> inp
         else:
@@ -225,7 +234,7 @@ def execute(sc):
             if ok:
                 if fixed:
                     msk = maskarr
-                pubs.append((t, np.asarray(stored, dtype=float).copy(), msk))
+                pubs.append((t, np.asarray(stored, dtype=float).copy(), msk, (k, pu if form == "quantity_conv" else None)))
                 if form in ("array", "array_t", "copy_prev", "same_obj", "view") and isinstance(payload, np.ndarray):
                     prev_obj = payload
                 else:
@@ -233,7 +242,7 @@ def execute(sc):
             elif form in ("same_obj", "view") and pubs:
                 # in-place modification by the producer reached the stored array (finam keeps a view): from now
                 # on the last publication legitimately shows the new numbers
-                pubs[-1] = (pubs[-1][0], np.asarray(vals, dtype=float).copy(), pubs[-1][2])
+                pubs[-1] = (pubs[-1][0], np.asarray(vals, dtype=float).copy(), pubs[-1][2], (k, None))
         else:
             _, ci, t = e
             c = sc["consumers"][ci]
@@ -265,7 +274,15 @@ def execute(sc):
             cu = c["units"] or su
             f = 2.0 if c["scale"] else 1.0
             arr = d.magnitude
-            wshapes = [(1,) + tuple(p[1].shape) for p in cands] if ngdim else [(1,) + tuple(shape)]
+            if c["grid"] == "relayout":
+                # every publication is an elementwise function of the cell's physical location: recompute it with
+                # the consumer's own index -> coordinate arithmetic
+                m2 = cms[ci]
+                base2 = m2.field([1.0, 10.0, 100.0][: m2.dim + 1])
+                mask2 = np.round(base2 * 3.7) % 4 == 0
+                cands = [(tp, np.asarray(convert(base2 + 1000.0 * (kk + 1), pu2, su) if pu2 else base2 + 1000.0 * (kk + 1)),
+                          mask2 if msk is not None else None, (kk, pu2)) for (tp, a, msk, (kk, pu2)) in cands]
+            wshapes = [(1,) + tuple(p[1].shape) for p in cands] if (ngdim or c["grid"] == "relayout") else [(1,) + tuple(shape)]
             if arr.shape not in wshapes:
                 v("link-shape", "shape", f"event {ei}: delivered shape {arr.shape}, expected {wshapes}")
                 continue
@@ -273,8 +290,8 @@ def execute(sc):
                 v("link-units", "units", f"event {ei}: delivered units {d.units}, expected {cu}")
                 continue
             okv = False
-            for (tp, a, msk) in cands:
-                if ngdim and (1,) + tuple(a.shape) != arr.shape:
+            for (tp, a, msk, _k) in cands:
+                if (1,) + tuple(a.shape) != arr.shape:
                     continue
                 want = convert(a * f, su, cu)
                 got = np.ma.getdata(arr[0])
